@@ -238,10 +238,16 @@ func (p pickyCodec) Marshal(msg any) ([]byte, error) {
 // closeTrackingBody counts Close calls on a body whose reads eventually fail.
 type closeTrackingBody struct {
 	failingBody
+	mu     sync.Mutex
 	closed int
 }
 
-func (b *closeTrackingBody) Close() error { b.closed++; return nil }
+func (b *closeTrackingBody) Close() error { b.mu.Lock(); b.closed++; b.mu.Unlock(); return nil }
+func (b *closeTrackingBody) closedCount() int {
+	b.mu.Lock()
+	defer b.mu.Unlock()
+	return b.closed
+}
 
 // watchedBody blocks at the end of its data until released, then fails with err: the point at
 // which a real transport would be stuck while the call's context ends.
@@ -1946,20 +1952,17 @@ func streamLife(c *Ctx) {
 		// inner one) inside CallServerStream: the caller gets no stream to close, so the library
 		// has to release the response itself.
 		scs = append(scs, scenario{"life-body-not-closed", "CallServerStream whose CloseRequest fails in an interceptor, " + proto, func() (string, bool) {
-			h := connect.NewServerStreamHandler("/s/m", func(ctx context.Context, r *connect.Request[[]byte], s *connect.ServerStream[[]byte]) error {
-				return s.Send(&[]byte{1})
-			}, connect.WithCodec(rawCodec{"raw"}))
-			srv := startServer(h, true)
-			defer srv.Close()
-			cc := &countingClient{inner: srv.Client()}
-			cl := connect.NewClient[[]byte, []byte](cc, srv.URL+"/s/m", append(protoOpts(proto), connect.WithInterceptors(failingCloseIcpt{}))...)
+			// (a scripted transport: what a real one does with an abandoned response is its own
+			// business - and not always the same)
+			fb := &closeTrackingBody{failingBody: failingBody{data: append(frame(0, []byte{1}), 0, 0), err: errors.New("read tcp: connection reset by peer")}}
+			hc := &bodyClient{status: 200, header: http.Header{"Content-Type": {ctFor(proto, "server", "raw")}}, body: fb}
+			cl := connect.NewClient[[]byte, []byte](hc, "http://h/s/m", append(protoOpts(proto), connect.WithInterceptors(failingCloseIcpt{}))...)
 			_, err := cl.CallServerStream(context.Background(), connect.NewRequest(&[]byte{1}))
 			deadline := time.Now().Add(2 * time.Second)
-			for atomic.LoadInt32(&cc.closes) < atomic.LoadInt32(&cc.bodies) && time.Now().Before(deadline) {
+			for fb.closedCount() == 0 && time.Now().Before(deadline) {
 				time.Sleep(20 * time.Millisecond)
 			}
-			bodies, closes := atomic.LoadInt32(&cc.bodies), atomic.LoadInt32(&cc.closes)
-			return fmt.Sprintf("call=%s responses opened=%d closed=%d", codeName(err), bodies, closes), err != nil && closes >= bodies
+			return fmt.Sprintf("call=%s response body closed %d time(s)", codeName(err), fb.closedCount()), err != nil && fb.closedCount() >= 1
 		}})
 		// L11 (round 10, C14-mm): a handler whose outcome is an error that wraps io.EOF - the
 		// common `if _, err := stream.Receive(); err != nil { return err }` at the end of the
